@@ -122,7 +122,7 @@ def check(run):
     run.check(not hard, 'R4a', f, 'self.state', 'taking snapshots writes the base state: %s' % hard)
     for p, k, via in ms:
         if via:
-            run.undecided('R4a', f, '%s %s' % (p, k), 'write exists only through name-resolved method calls')
+            run.undecided('R4a', f, '%s %s' % (p, k), 'write exists only through name-resolved method calls', declared=True)
     # kernels that work in place on their arguments: callers on query paths pass copies -- covered by (a) above;
     # record the kernels' own MOD sets as evidence
     for rel, name in ((K.PY_U, 'clifford_rotate'), (K.PY_U, 'stabilizer_measure'), (K.PY_U, 'z2rank'),
